@@ -623,9 +623,9 @@ func (m *Manager) readIntoTable(id uint64, reader io.Reader) error {
 
 			batchCmd.Table = cmd.Table
 			batchCmd.LeaderIndex = cmd.LeaderIndex
+			batchCmd.Batch = append(batchCmd.Batch, cmd.Kv)
 
-			if uint64(estimatedSize) < m.cfg.Table.MaxInMemLogSize/2 {
-				batchCmd.Batch = append(batchCmd.Batch, cmd.Kv)
+			if m.cfg.Table.MaxInMemLogSize == 0 || uint64(estimatedSize) < m.cfg.Table.MaxInMemLogSize/2 {
 				continue
 			}
 		}
